@@ -56,6 +56,8 @@ Step1 ==
                   v2 == Check(~(e.err = "EOF" /\ s.shut \in {"fin", "close"}) \/ Rd(e.c) = s.total,
                               "AllOfferedBeforeEOFClose", <<e.c, Rd(e.c), s.total>>, v1)
               IN Step(Put(st, e.c, [s EXCEPT !.closed = TRUE]), rd, v2)
+         \* C12: two slices taken from the byte-slice pool one after the other are different memory
+         [] e.ev = "PoolAlias" -> Step(st, rd, Check(FALSE, "PooledMemoryExclusive", <<e.c, e.size>>, viols))
          [] OTHER -> Step(st, rd, viols)
 
 Next == Step1 \/ FinishWith(<<st, rd>>)
